@@ -27,7 +27,7 @@ ASSUMPTIONS = ["a renderable error's own code and message are its class/instance
                "'bare 5.00' is taken to mean code 5.00 with an empty payload"]
 EXPECTED_PROBES = ["renderable_error", "generic_exception", "wrong_return_type", "failing_renderer", "slow_failure",
                    "default_code", "not_found", "method_not_allowed", "not_a_server", "concurrent_neighbours", "gc_while_handler_waits", "non_renderable_with_to_message", "request_over_tcp",
-                   "observation_declined", "crowd_of_pending_requests", "crowd_above_64", "handler_on_instance", "response_declined_by_client", "other_class_declined_response_due"]
+                   "observation_declined", "crowd_of_pending_requests", "crowd_above_64", "handler_on_instance", "response_declined_by_client", "other_class_declined_response_due", "modifying_request_with_observe"]
 
 SECRET = "SECRET-9f3a-MARKER"
 METHODS = {"GET": 1, "POST": 2, "PUT": 3, "DELETE": 4, "FETCH": 5, "PATCH": 6, "IPATCH": 7}
@@ -40,10 +40,10 @@ RET_CODES = [rc.CONTENT, rc.CREATED, rc.CHANGED, rc.DELETED, rc.VALID, rc.BAD_RE
 KINDS = ["ret_code", "ret_nocode", "raise_renderable", "raise_renderable_text", "raise_generic", "ret_none", "ret_str",
          "ret_int", "ret_tuple", "renderer_raises", "renderer_none", "missing", "get_only", "ret_unserializable",
          "raw_render_nonmessage", "wait_weak", "raise_wrapping", "raise_ducky", "obs_decline_ret", "obs_decline_raise",
-         "inst_put_w", "inst_put_r", "removed_post", "getattr_any"]
+         "inst_put_w", "inst_put_r", "removed_post", "getattr_any", "obs_modifying"]
 
 
-FIXED_METHOD = {"inst_put_w": "PUT", "inst_put_r": "PUT", "removed_post": "POST"}
+FIXED_METHOD = {"inst_put_w": "PUT", "inst_put_r": "PUT", "removed_post": "POST", "obs_modifying": "POST"}
 
 
 def gen_req(r, i):
@@ -52,7 +52,7 @@ def gen_req(r, i):
                        (2, "renderer_raises"), (1, "renderer_none"), (2, "missing"), (2, "get_only"),
                        (2, "ret_unserializable"), (1, "raw_render_nonmessage"), (2, "wait_weak"),
                        (2, "raise_wrapping"), (1, "raise_ducky"), (1, "obs_decline_ret"), (2, "obs_decline_raise"),
-                       (1, "inst_put_w"), (1, "inst_put_r"), (1, "removed_post"), (1, "getattr_any")])
+                       (1, "inst_put_w"), (1, "inst_put_r"), (1, "removed_post"), (1, "getattr_any"), (1, "obs_modifying")])
     q = {"id": i, "kind": kind, "method": r.choice(list(METHODS)), "con": r.chance(0.7), "slow": r.chance(0.35),
          "client": 0}
     if kind in ("inst_put_w", "inst_put_r"):
@@ -60,6 +60,11 @@ def gen_req(r, i):
         q["method"] = "PUT"
     if kind == "removed_post":
         q["method"] = "POST"  # the class has a POST handler, this instance switched it off (render_post = None)
+    if kind == "obs_modifying":
+        # a modifying request that carries Observe: 0 (a client library that sets the option on whatever it sends) to a
+        # resource that accepts observations and changes its state later: observing is defined for GET and FETCH, this
+        # request is carried out and answered once like any other
+        q["method"] = r.choice(["POST", "PUT", "DELETE", "PATCH", "IPATCH"])
     if kind.startswith("obs_decline"):
         # a request asking to observe (Observe: 0) a resource that can be observed in principle but turns this
         # particular request down (does not accept the observation) and answers / fails like any other handler
@@ -382,6 +387,19 @@ def execute(sim, scn):
 
         render_fetch = render_get
 
+    class Journal(resource.ObservableResource):
+        """accepts every observation it is offered; its state changes later on"""
+
+        async def _do(self, request):
+            rid = int(request.opt.uri_query[0][2:])
+            invocations.append((loop.now, rid))
+            if specs[rid]["slow"]:
+                await asyncio.sleep(0.3)
+            return Message(payload=b"P%d" % rid)
+
+        render_get = render_fetch = render_post = render_put = render_delete = render_patch = render_ipatch = _do
+
+    journal = Journal()
     park_release = []
 
     class Park(resource.ObservableResource):
@@ -455,6 +473,7 @@ def execute(sim, scn):
         site.add_resource(["removed"], Removed())
         site.add_resource(["forwarding"], Forwarding())
         site.add_resource(["park"], Park())
+        site.add_resource(["journal"], journal)
         if not any(q.get("tcp") for q in scn["reqs"]):
             return await sim.server(None if scn.get("nosite") else site, common.SERVER_IP)
         from simkit.stream import SimStreamNet
@@ -504,10 +523,14 @@ def execute(sim, scn):
         tokens[q["id"]] = (cl.addr, token)
         path = {"missing": b"nowhere", "get_only": b"getonly", "raw_render_nonmessage": b"raw", "obs_decline_ret": b"declining",
                 "obs_decline_raise": b"declining", "inst_put_w": b"inst_w", "inst_put_r": b"inst_r", "removed_post": b"removed",
-                "getattr_any": b"forwarding"}.get(q["kind"], b"zoo")
+                "getattr_any": b"forwarding", "obs_modifying": b"journal"}.get(q["kind"], b"zoo")
         m = {"type": rc.CON if q["con"] else rc.NON, "code": METHODS[q["method"]], "mid": 0x100 + q["id"],
-             "token": token, "options": ([(rc.OBSERVE, b"")] if q["kind"].startswith("obs_decline") else []) +
+             "token": token, "options": ([(rc.OBSERVE, b"")] if q["kind"].startswith("obs_") else []) +
              [(rc.URI_PATH, path), (rc.URI_QUERY, b"r=%d" % q["id"])], "payload": b""}
+        if q["kind"] == "obs_modifying":
+            sim.probe("modifying_request_with_observe")
+            for dt in (1.0, 2.5):
+                loop.at(q["t"] + dt, journal.updated_state)
         if q.get("nr") is not None:
             m["options"].append((rc.NO_RESPONSE, rc.uint_bytes(q["nr"])))
         if q.get("tcp"):
@@ -646,6 +669,12 @@ def execute(sim, scn):
                 exp_code = rc.METHOD_NOT_ALLOWED
         elif k == "ret_code":
             exp_code, exp_payload = q["code"], b"P%d" % q["id"]
+        elif k == "obs_modifying":
+            exp_code = {"GET": rc.CONTENT, "FETCH": rc.CONTENT, "DELETE": rc.DELETED}.get(q["method"], rc.CHANGED)
+            exp_payload = b"P%d" % q["id"]
+            runs = [x for x in invocations if x[1] == q["id"]]
+            if len(runs) > 1:
+                sim.violation("C09/handler-ran-again-for-answered-request", dict(ident, times=[x[0] for x in runs]))
         elif k in ("inst_put_w", "getattr_any"):
             sim.probe("handler_on_instance")
             exp_code = {"GET": rc.CONTENT, "FETCH": rc.CONTENT, "DELETE": rc.DELETED}.get(q["method"], rc.CHANGED)
